@@ -315,6 +315,8 @@ class Engine:
     def coerce(self, ty, val):
         # a None-able value stored into a slot declared non-None: Python would store None and fail at the
         # first arithmetic use; the obligation is raised at the store (conservative, earlier)
+        if isinstance(val, tuple) and ty.kind == "tuple" and len(val) == len(ty.args):
+            return tuple(self.coerce(a, v) for a, v in zip(ty.args, val))
         if isinstance(val, OptV) and ty.kind not in ("opt",) :
             return self.unopt(val, "value stored in non-optional field")
         if ty.kind == "dict" and isinstance(val, dict) and not val:
